@@ -115,6 +115,7 @@ prop("C03", [
     dict(engine="verus", unit="dnsser", fns=["push_rr", "push_u16", "push_u32", "push_label", "push_str"]),
     # the upstream reply as decoded: header bits, and the response code's upper bits from the first version-0 OPT record
     dict(engine="verus", unit="dnsparse", fns=["PktParser::get_dns"]),
+    dict(engine="verus", unit="outq", fns=["create_outquery"]),
 ], explanation="create_in_reply: the client reply is the upstream reply under the client's id and question, for any number of records; "
                "push_rr: every name is written with the base offset of the buffer it is written into (emission-point precondition of the compression dictionary)")
 
@@ -166,7 +167,12 @@ prop("C15", [
 
 prop("C07", [
     dict(engine="kani", sets=["net_addr", "net_udp_addr"]),
-], explanation="narrow clause of C07: source-address control message carries the receiving address (all 2^32/2^128 addresses)")
+    dict(engine="verus", unit="outq"),
+], explanation="two clauses of C07: (1) the source-address control message carries the receiving address (all 2^32/2^128 addresses, Kani complete); "
+               "(2) own answer with many queries in flight: the query sent upstream carries exactly the client's question; on a shared upstream TCP connection a waiter is registered under an id no in-flight query uses and is never overwritten, "
+               "a reply goes to the waiter registered under its id and to no other (per-query connected UDP sockets make crossing impossible on the UDP path: read, not proved)",
+    assumptions=["waiting forwarded queries are never cancelled (oneshot send cannot fail): no time-out or select! wraps rx.await in send_query_to",
+                 "NOT decided: exactly-one-reply under loss/reordering/duplication, bounded-time SERVFAIL when the upstream stays silent, the futures::select! loops of send_udp and TcpNameserver::run (schedules, timers, I/O faults)"])
 
 prop("C08", [
     dict(engine="verus", unit="acl"),
